@@ -1,0 +1,26 @@
+//go:build verif
+
+package car
+
+// Contracts for the verification machinery in /verif (comment-only; see /verif/DESIGN.md).
+
+//@ func ReadHeader
+//@   modifies pos(br)
+//@   ensures eof_clean [C02]: err == io.EOF ==> pos(br) == old(pos(br))
+//@   ensures consumed [C01]: err == nil ==> result0 != nil && pos(br) == old(pos(br)) + vsize(enclen(result0)) + enclen(result0)
+
+//@ func WriteHeader
+//@   modifies wn(w)
+//@   ensures count [C01,C15]: err == nil ==> wn(w) == old(wn(w)) + vsize(enclen(h)) + enclen(h)
+
+//@ func HeaderSize
+//@   ensures size [C01,C15]: err == nil && result0 == vsize(enclen(h)) + enclen(h)
+
+//@ func (*carWriter).writeNode
+//@   call[util.LdWrite#0] assert section [C01,C15]: ref(arg0) == ref(cw.w) && len(arg1) == 2
+
+//@ func (*CarReader).Next
+//@   let c, data, rerr := call[util.ReadNode#0]
+//@   ensures integrity [C02]: err == nil ==> hashok(blockcid(result0), blockdata(result0))
+//@   ensures same_values [C02]: err == nil ==> blockcid(result0) == ref(c) && blockdata(result0) == ref(data)
+//@   ensures eof_clean [C02]: err == io.EOF && old(cr.br) != nil ==> rerr == io.EOF
